@@ -27,6 +27,12 @@ use tokio::{
     sync::{mpsc, oneshot},
 };
 
+/// Most peers listed in one `get_peers` reply. Together with both node lists, the token and a
+/// transaction id of up to 32 bytes the reply then stays below the 1500 bytes other nodes are able
+/// to receive (a compact IPv4 peer takes 8 bytes on the wire, an IPv6 one 21).
+const MAX_VALUES_V4: usize = 100;
+const MAX_VALUES_V6: usize = 40;
+
 /// Storage for our EventLoop to invoke actions upon.
 pub(crate) struct DhtHandler {
     this_node_id: NodeId,
@@ -244,8 +250,7 @@ impl DhtHandler {
                     n.remote_request()
                 }
 
-                // TODO: Check what the maximum number of values we can give without overflowing a udp packet
-                // Also, if we arent going to give all of the contacts, we may want to shuffle which ones we give
+                // TODO: if we arent going to give all of the contacts, we may want to shuffle which ones we give
                 let values: Vec<_> = self
                     .active_stores
                     .find_items(&g.info_hash)
@@ -259,6 +264,10 @@ impl DhtHandler {
                             (SocketAddr::V4(_), SocketAddr::V6(_)) => false,
                             (SocketAddr::V6(_), SocketAddr::V4(_)) => false,
                         }
+                    })
+                    .take(match addr {
+                        SocketAddr::V4(_) => MAX_VALUES_V4,
+                        SocketAddr::V6(_) => MAX_VALUES_V6,
                     })
                     .collect();
 
